@@ -38,10 +38,20 @@ def built_headers(fb, fn):
             if base is not None:
                 return ("field", pe.term(base), n)
             return None
-        fl = fld("flags")
+        fl = _plain(fld("flags"))
         res.append({"request": fld("request"), "flags": fl, "size": fld("size"), "base": pe.term(base) if base is not None else None,
                     "flags_value": const_eval(fb, sym, fl) if fl is not None else None, "sym": sym, "fn": f, "path": o.path})
     return res
+
+
+def _plain(t):
+    """The value inside single-field wrapper structs (a private newtype around the flags word)."""
+    while t is not None and t[0] == "over" and t[1] is None:
+        real = [x for x in t[2] if not x[0].startswith("__")]
+        if len(real) != 1 or real[0][0] != "0":
+            break
+        t = real[0][1]
+    return t
 
 
 def from_request(t, pname):
@@ -87,7 +97,7 @@ def sent_headers(fb, fn, send_names=("send_message", "send_message_with_payload"
             if base is not None:
                 return ("field", pe.term(base), n)
             return None
-        fl = fld("flags")
+        fl = _plain(fld("flags"))
         res.append({"request": fld("request"), "flags": fl, "size": fld("size"), "flags_value": const_eval(fb, sym, fl) if fl is not None else None,
                     "atoms": o.atoms, "bb": bb, "sym": sym})
     return f, res
